@@ -107,12 +107,17 @@ Proof. intros k; apply panics_only_when_checks_pass_v. destruct k; vm_compute; r
 Lemma f9_later_accepted : check [(x, 1)] f9 KAscent = Accept.
 Proof. vm_compute. reflexivity. Qed.
 
-(* res(s) <-- agg s = sum(z) in r(x, _): the aggregated variable is not an argument of the aggregated relation;
-   no check rejects it and code generation panics *)
+(* res(s) <-- agg s = sum(z) in r(x, _): the aggregated variable is not an argument of the aggregated relation.
+   Before commit 9b40028 no check rejected it and code generation panicked; now it is an error of the rule stage. *)
 Definition agg_unbound : program := {| p_attrs := []; p_items := [rel 0 [0; 0]; rel 1 [0];
   rule [HClause 1 1] [SAgg [y] [z] 0 [GVar x; GWild]] ] |}.
-Lemma agg_unbound_panics : map (check [] agg_unbound) allk = [Panics; Panics; Panics; Panics].
+Lemma agg_unbound_rejected : map (check [] agg_unbound) allk = [Reject (EAggVar z 0); Reject (EAggVar z 0); Reject (EAggVar z 0); Reject (EAggVar z 0)].
 Proof. vm_compute. reflexivity. Qed.
+Lemma agg_unbound_occurs : occurs [] agg_unbound KAscent (VRule 0 2 (EAggVar z 0)).
+Proof.
+  simpl. eexists; eexists; eexists. split; [split; [vm_compute; reflexivity | eexists; split; [vm_compute; reflexivity | reflexivity]]|].
+  split; [vm_compute; reflexivity|]. apply eb_aggvar. vm_compute. reflexivity.
+Qed.
 
 Lemma f9_refutes : exists c0 P, (forall k, well_formed c0 P k) /\ (forall k, check c0 P k = Panics).
 Proof. exists [], f9. split; [exact f9_well_formed | intros k; destruct k; vm_compute; reflexivity]. Qed.
